@@ -12,7 +12,7 @@ spec/BridgeList/BridgeListContract.tla  the documented contract as operators ove
 spec/BridgeList/BridgeList.tla          the loader machine statement by statement + readers under the RW lock; TLC:
                                         MeetsContract, AllOrNothing, LastWins, NoIntermediate, OldOrNew, RaceFree,
                                         MachineIsCode; eight what-if variants must each violate their invariant (two
-                                        of them are the code before the repairs d4d2afc / 09140da); Emit / EmitOffer
+                                        of them are the code before the repairs 8bae0ec / 5086704); Emit / EmitOffer
                                         print every enumerated file with its allowed outcomes.
 spec/BridgeList/BridgeList_Trace.tla    traces of real lookups concurrent with real reloads must be explained.
 spec/BridgeList/BridgeProfile.tla       InstallBridgeListProfile's publication order and what one concurrent
@@ -43,8 +43,8 @@ INVS = "TypeOK MeetsContract AllOrNothing LastWins NoIntermediate OldOrNew Machi
 
 # what-if variant -> the invariant it must violate (checked alone, with TypeOK)
 WHATIF = [
-    ("noscanerr", "AllOrNothing"),     # the code before d4d2afc
-    ("notrail", "MeetsContract"),      # the code before 09140da
+    ("noscanerr", "AllOrNothing"),     # the code before 8bae0ec
+    ("notrail", "MeetsContract"),      # the code before 5086704
     ("skipbad", "AllOrNothing"),
     ("firstwins", "LastWins"),
     ("inplace", "NoIntermediate"),
